@@ -2,6 +2,7 @@ from __future__ import annotations
 
 import re
 from decimal import Decimal
+from fractions import Fraction
 from typing import Protocol, Any
 
 from . import isoduration
@@ -150,6 +151,9 @@ class TimestampConverter(NullConverter):
     @staticmethod
     def to_xml(py_value) -> str:
         # round to the nearest millisecond; int() alone truncates and e.g. turns 1.001 s into '1000'
+        if isinstance(py_value, Decimal):
+            # exact: Decimal * 1000 is rounded to the precision of the decimal context of the calling thread
+            return str(round(Fraction(py_value) * 1000))
         return str(int(round(py_value * 1000)))
 
     @staticmethod
